@@ -84,6 +84,8 @@ func strConstsOf(w *World, v ssa.Value) map[string]bool {
 			if x.Value != nil && x.Value.Kind() == constant.String {
 				out[constant.StringVal(x.Value)] = true
 			}
+		case *ssa.Extract:
+			rec(x.Tuple, d+1) // strings.CutSuffix and friends return (string, bool)
 		case *ssa.Parameter:
 			// inside a helper analysed in line: the argument of the call at hand
 			if a, ok := w.paramCtx[x]; ok {
@@ -387,7 +389,7 @@ func c15R4(w *World, r *Report, rule string) {
 				return nil
 			},
 			CallEdge: func(call ssa.Value, outcome string) *Event {
-				if c, ok := call.(*ssa.Call); ok && w.calleeName(&c.Call) == "strings.HasSuffix" && outcome == "false" {
+				if c, ok := call.(*ssa.Call); ok && (w.calleeName(&c.Call) == "strings.HasSuffix" || w.calleeName(&c.Call) == "strings.CutSuffix") && outcome == "false" {
 					if k, ok := c.Call.Args[1].(*ssa.Const); ok && k.Value != nil && constant.StringVal(k.Value) == ".dat" {
 						return ev("tempHandled")
 					}
